@@ -24,7 +24,7 @@ import (
 type spec struct {
 	Property  string            `json:"property"`
 	Tier      string            `json:"tier"`
-	Mode      string            `json:"mode"` // gen | replay | enum
+	Mode      string            `json:"mode"` // gen | replay | enum | genonly (gen without running)
 	Seeds     []uint64          `json:"seeds"`
 	Scenarios []json.RawMessage `json:"scenarios"` // replay mode: scenarios to run (seed taken from Seeds[i] if present)
 	Out       string            `json:"out"`
@@ -107,6 +107,15 @@ func TestWorker(t *testing.T) {
 	}
 
 	for i, j := range jobs {
+		if sp.Mode == "genonly" {
+			// only report the scenario a seed generates (used to recover the
+			// scenario of a run that killed its worker process)
+			line, _ := json.Marshal(&core.Result{Property: p.ID, Seed: j.seed, Verdict: "generated", Scenario: j.scen})
+			w.Write(line)
+			w.WriteByte('\n')
+			w.Flush()
+			continue
+		}
 		res := runOne(t, p, &sp, j.seed, j.scen, i)
 		if sp.KeepScen || res.Verdict != core.OK {
 			res.Scenario = j.scen
